@@ -118,6 +118,23 @@ func (j c17Job) run(devnull string) c17Result {
 			rest = append(rest, ln)
 		}
 		return c17Result{fmt.Sprintf("%v/%d err=%q fds[%s] %s made=%v opens=%d foreign-paths=%d", r.Status, r.ExitStatus, r.Error, fds, c17Lines(strings.Join(rest, "\n")), statErr == nil, okOpens, foreign), own}
+	case "ptrace-refused", "unshare-refused":
+		// launches that their caller refuses at the synchronisation point (a failing attach to a control group, say), several
+		// in a row: a failed launch of one run among healthy runs of others
+		var outs []string
+		for k := 0; k < 8; k++ {
+			spec := RunSpec{Script: fmt.Sprintf("print %s; exit %d", tag, code), SyncFunc: func(int) error { return fmt.Errorf("refused by the caller") }}
+			var r runner.Result
+			var out string
+			if j.kind == "ptrace-refused" {
+				spec.Filter = tracingFilter()
+				r, out = runPtraceProbe(spec)
+			} else {
+				r, out = runUnshareProbe(spec, "", nil)
+			}
+			outs = append(outs, fmt.Sprintf("%v/%d err=%q out=%q", r.Status, r.ExitStatus, r.Error, out))
+		}
+		return c17Result{strings.Join(outs, " | "), ""}
 	case "unshare":
 		script := fmt.Sprintf("report fds; report pid; print %s; exit %d", tag, code)
 		r, out := runUnshareProbe(RunSpec{Script: script}, "", nil)
@@ -206,7 +223,7 @@ func runC17(res *Result, d *Driver, tier string, seed uint64) {
 	if tier == "thorough" {
 		rounds = 400
 	}
-	kinds := []string{"ptrace", "ptrace", "unshare", "unshare", "container", "shared-exec", "shared-open", "shared-ping", "build", "build"}
+	kinds := []string{"ptrace", "ptrace", "unshare", "unshare", "container", "shared-exec", "shared-open", "shared-ping", "build", "build", "ptrace-refused", "unshare-refused"}
 	solo := map[string]string{}
 	soloOf := func(j c17Job) string {
 		key := fmt.Sprintf("%s-%d", j.kind, j.i)
